@@ -41,6 +41,10 @@ func runSeqProgram(p *drive.Program) *drive.Mismatch {
 				ev.R().Count("seq_cases_stopped_at_write_error", 1)
 				return nil
 			}
+			if errors.Is(err, drive.ErrRetireRaced) {
+				ev.R().Count("seq_cases_dropped_harness_retention_overlapped_rotation", 1)
+				return nil
+			}
 			panic(err)
 		}
 		if mm := r.CheckAll(i); mm != nil {
